@@ -47,3 +47,9 @@ Theorem evalR_correct : forall D, wfD D -> forall fuel a b,
 Proof. exact Builtin.evalR_correct. Qed.
 Check evalR_correct : forall D, wfD D -> forall fuel a b,
   evalR fuel D a = Some b -> (b = true <-> holdsR D a).
+
+Theorem evalRg_correct : forall D, wfD D -> forall fuel g b,
+  evalRg fuel D g = Some b -> (b = true <-> satR D g).
+Proof. exact Builtin.evalRg_correct. Qed.
+Check evalRg_correct : forall D, wfD D -> forall fuel g b,
+  evalRg fuel D g = Some b -> (b = true <-> satR D g).
